@@ -13,7 +13,6 @@ import (
 	"os"
 	"path/filepath"
 	"runtime"
-	"runtime/debug"
 	"strings"
 
 	bm "github.com/microcosm-cc/bluemonday"
@@ -544,7 +543,7 @@ func memGuard(cache map[int]*polCacheEntry, n int) {
 			delete(cache, k)
 		}
 		memGuardResets++
-		debug.FreeOSMemory()
+		
 	}
 }
 
